@@ -41,6 +41,8 @@ CheckEnd(line, ev) ==
         /\ Chk(line, (mon.panicked /\ mon.recovered = 1 /\ ~o.wroteBefore)
                         => o.status = (IF o.recStatus > 0 THEN o.recStatus ELSE 500),
                "C10.status", <<o.status>>)
+        \* ... and a complete, decodable body: what the recover handler wrote arrives intact
+        /\ Chk(line, mon.recovered = 1 => C07Payload(o), "C10.body", <<o.decodeOK, o.decodedEq, o.bodyEq>>)
 
 Init == l = 1 /\ mon = MonInit(0, FALSE, 1, 1)
 Next == /\ l <= Len(Trace) /\ l' = l + 1
